@@ -57,7 +57,8 @@ def run_one(sc):
 
     cfg = sc["cfg"]
     nf, nc = cfg["nf"], cfg["nc"]
-    env = Environment()
+    t0 = sc.get("t0", 0)          # the environment's clock starts at t0; instants are recorded relative to it
+    env = Environment(t0) if t0 else Environment()
     rec = netlib.Recorder(env)
     base = {"id": 0, "f": 1, "sz": 0, "sch": 0, "pis": 0, "wt": -1, "tot": 0, "cnt": [0] * nf, "byt": [0] * nf, "cr": [0] * nc,
             "fk": 0, "v": 0, "x": 0, "y": 0, "type": ""}
@@ -87,14 +88,14 @@ def run_one(sc):
                 d["fk"] = ex(s.finish_times.get(k, -1))
                 d["v"] = ex(s.vtime)
             elif kind == "VC":
-                d["fk"] = ex(s.aux_vc.get(k, -1))
+                d["fk"] = ex(s.aux_vc[k] - t0) if k in s.aux_vc else -1     # auxVC is an instant
         return d
 
     notify = [lambda: None]
 
     class Sink:
         def put(self, pkt):
-            rec.ev.append(dict(base, e="D", t=ex(env.now), id=pkt.packet_id, f=pkt.flow_id + 1, sz=pkt.size, **state()))
+            rec.ev.append(dict(base, e="D", t=ex(env.now - t0), id=pkt.packet_id, f=pkt.flow_id + 1, sz=pkt.size, **state()))
             notify[0]()
 
     # "noout": the scheduler is the last element of the path (out stays None); departures are then not observable at a
@@ -111,7 +112,7 @@ def run_one(sc):
         seen_flows.add(a["f"] - 1)
         # sch = 1: the arrival was scheduled before its instant began (a timer set earlier, or the same process step as
         # such an arrival); sch = 0: a reactive arrival, created by zero-delay hops inside the instant
-        rec.ev.append(dict(base, e="A", t=ex(env.now), id=i + 1, f=a["f"], sz=a["sz"], sch=0 if "after" in a else 1,
+        rec.ev.append(dict(base, e="A", t=ex(env.now - t0), id=i + 1, f=a["f"], sz=a["sz"], sch=0 if "after" in a else 1,
                            **state(cfg["f2c"][a["f"] - 1] - 1)))
 
     mon = sc.get("mon")
@@ -128,14 +129,14 @@ def run_one(sc):
                     if len(m.sizes[f]) > seen.get(f, 0):
                         seen[f] = len(m.sizes[f])
                         if 0 <= f < nf:
-                            rec.ev.append(dict(base, e="S", t=ex(env.now), f=f + 1, x=ex(m.sizes[f][-1]),
+                            rec.ev.append(dict(base, e="S", t=ex(env.now - t0), f=f + 1, x=ex(m.sizes[f][-1]),
                                                y=ex(m.byte_sizes[f][-1]), **state()))
             return gaps.pop(0) if gaps else float("inf")
 
         # Monitor starts its own process in __init__ and calls dist() on first resumption
         holder[0] = Monitor(env, s, dist, service_included=bool(mon["incl"]))
 
-    notify[0] = netlib.injector(env, rec, sc["arr"], make_packet, s, on_arrival)
+    notify[0] = netlib.injector(env, rec, sc["arr"], make_packet, s, on_arrival, origin=t0)
     if sc.get("twin"):
         # a second scheduler of the same kind and configuration lives in the same process and environment and carries
         # its own traffic: nothing it does may show in the first one's trace
@@ -147,9 +148,9 @@ def run_one(sc):
                     pass
             s2.out = Null()
             netlib.injector(env, None, sc["twin"], lambda i, a: Packet(env.now, a["sz"], 1000 + i, flow_id=a["f"] - 1), s2,
-                            lambda i, a, pkt: None)
+                            lambda i, a, pkt: None, origin=t0)
         except BaseException as e:  # noqa
-            rec.ev.append(dict(base, e="X", t=ex(env.now), type=type(e).__name__))
+            rec.ev.append(dict(base, e="X", t=ex(env.now - t0), type=type(e).__name__))
     ok = netlib.run_env(env, rec)
     for e in rec.ev:
         if e["e"] == "X":
@@ -157,7 +158,7 @@ def run_one(sc):
             for k, v in base.items():
                 e.setdefault(k, v)
     if ok:
-        rec.ev.append(dict(base, e="Q", t=ex(env.now), **state()))
+        rec.ev.append(dict(base, e="Q", t=ex(env.now - t0), **state()))
     return out
 
 
